@@ -53,7 +53,21 @@ def run_ring_property(pid, props_file, gen, rule, extra_trusted=(), assumptions=
             n_validated += 1
             if r is not True and val_fail is None:
                 val_fail = (tr, r)
+    # correspondence with the PROOF MODELS themselves: replay of every trace (also of aborted runs) on Pipeline.v / MultiPub.v
+    rep_fail = None; n_replayed = 0; n_rep_rej = 0
+    if validate:
+        from ringvalidate import replay_many
+        for tr, r in zip(traces, replay_many(traces)):
+            n_replayed += 1
+            if r is not True:
+                n_rep_rej += 1
+                if rep_fail is None: rep_fail = (tr, r)
     extra_dist = extra_phase(run) if extra_phase else None
+    if rep_fail is not None and not run.violations and val_fail is None:
+        tr, why = rep_fail
+        run.violation({"kind": "correspondence-broken (the logged execution is not an execution of the proof model: replay on the extracted Pipeline.v / MultiPub.v step relation failed; the property monitors held on every explored schedule)",
+                       "correspondence": "pipe_replay_entry / ring_replay_entry vs harness/ring trace", "why": why, "config": tr.cfg.to_json(), "schedule": tr.schedule},
+                      name=f"corr-{run.tier}.json", no_input=True)
     if val_fail is not None and not run.violations:
         tr, why = val_fail
         run.violation({"kind": "correspondence-broken (the extracted Coq model of the ring-buffer threads does not accept the logged trace; the property monitors held on every explored schedule)",
@@ -62,6 +76,8 @@ def run_ring_property(pid, props_file, gen, rule, extra_trusted=(), assumptions=
     proof_failure_violation(run, bool(run.violations))
     run.cov["distinct_nontrivial"] += len(nontrivial)
     run.cov["traces_validated_against_impl"] = n_validated
+    run.cov["traces_replayed_on_the_proof_model"] = n_replayed
+    run.cov["traces_rejected_by_the_proof_model_replay"] = n_rep_rej
     import ringvalidate
     if ringvalidate.DRIVER_FAILURES:
         run.notes.append(f"trace validation skipped for {len(ringvalidate.DRIVER_FAILURES)} traces the OCaml driver could not evaluate (stack depth; trace lengths {sorted(ringvalidate.DRIVER_FAILURES)[-3:]} events)")
